@@ -165,6 +165,14 @@ def replay_of(c, key):
 
 def coq_correspondence(ctx, cases, results, flagged):
     usable = [i for i, r in enumerate(results) if not r.get("error") and "tok" in r and "yaml" in r]
+    # a kernel with thousands of loop-carried dependencies (a whole unmarked file) would make a 100 MB term:
+    # such reports are judged by the Python oracle only
+
+    def size(r):
+        return sum(len(e[2]) + 4 for e in r["snap"]["lcd"]) + len(r["snap"]["lines"]) * (3 * len(r["snap"]["ports"]) + 10)
+    big = [i for i in usable if size(results[i]) > 40000]
+    usable = [i for i in usable if i not in big]
+    ctx.coverage["reports"]["too_large_for_coq_comparator"] = len(big)
     shards, index = [], []
     for s in range(0, len(usable), SHARD):
         ids = usable[s:s + SHARD]
